@@ -58,6 +58,8 @@ Definition dEvent : dec ev :=
   | 2 => ret (EPgAdd pa pb d)
   | 3 => ret (EPgUpd pa pb d)
   | 4 => ret (EPgDel pa)
+  | 13 => ret (EPgGone pa)
+  | 14 => if b =? 0 then fail else ret (EPgDelLate pa pb)
   | 6 => ret (EQCreate pa par)
   | 7 => ret (EQReparent pa par)
   | 8 => ret (EQDelete pa)
@@ -137,6 +139,14 @@ Definition law_entry (law : st -> ev -> st -> outcome -> bool) (toks : list Z) :
   | None => bad_input
   end.
 
+(* a law about the END state of the history only *)
+Definition law_entry_last (law : st -> bool) (toks : list Z) : list Z :=
+  match run_dec (let* mx := dZ in let* s := dSt mx in let* h := dList dEvent in
+                 let* obs := dObs mx (length h) in ret (s, h, obs)) toks with
+  | Some (s, h, obs) => eBool (law (last (map snd obs) s))
+  | None => bad_input
+  end.
+
 Definition entry (sel : Z) (toks : list Z) : list Z :=
   match sel with
   | 1 | 2 | 3 | 4 | 5 => match run_dec dInput toks with
@@ -164,6 +174,7 @@ Definition entry (sel : Z) (toks : list Z) : list Z :=
   (* quiescent end states (selector 4) *)
   | 141 => law_entry_exc exc_stuck prune_stuck law_stuck_X toks       (* unsigned: any other stuck child *)
   | 142 => law_entry_exc exc_open prune_open law_openchild_X toks     (* unsigned: any other open child under a closed parent *)
+  | 145 => law_entry_last law_no_idle_closing toks         (* unsigned: a queue left Closing with no PodGroup *)
   | 143 => law_entry_exc exc_stuck prune_stuck law_stuck_Y toks       (* signed: the known class *)
   | 144 => law_entry_exc exc_open prune_open law_openchild_Y toks     (* signed: the known class *)
   | _ => bad_input
